@@ -70,6 +70,27 @@ def systems(rng, n):
         cases.append({"method": method, "dim": dim, "A": [fv(row) for row in A], "r": fv(r), "eps": fp(eps), "g": g,
                       "start": fv(start), "tol": fp(tol), "n_max": n_max, "h": fp(h), "budget": 20000,
                       "regular": regular, "singular": singular})
+    # starts on (nearly) the sphere through the root: the first step of a curved system lands a few hundredths from the root
+    # and at (nearly) the start's distance from the origin - the norm of the iterate barely changes while the iterate does;
+    # convergence must be judged on the step, not on the change of the norm
+    for k in range(max(250, n // 4)):
+        dim = rng.randint(2, 4)
+        A = [[(rng.choice([-1, 1]) * rng.randint(8, 16) / 4.0) if i == j else rng.randint(-2, 2) / 4.0 for j in range(dim)] for i in range(dim)]
+        r = [rng.uniform(-1, 1) for _ in range(dim)]
+        nr = math.sqrt(sum(v * v for v in r))
+        if nr < 0.3:
+            continue
+        r = [v * rng.uniform(0.7, 1.5) / nr for v in r]
+        i, j = rng.sample(range(dim), 2)
+        th = rng.uniform(0.3, 0.5) * rng.choice([-1, 1])
+        start = list(r)
+        start[i] = math.cos(th) * r[i] - math.sin(th) * r[j]
+        start[j] = math.sin(th) * r[i] + math.cos(th) * r[j]
+        sc = 1.0 + rng.uniform(-0.02, 0.02)
+        start = [v * sc for v in start]
+        cases.append({"method": "newton", "dim": dim, "A": [fv(row) for row in A], "r": fv(r), "eps": fp(0.1), "g": rng.choice(["sq", "sin"]),
+                      "start": fv(start), "tol": fp(rng.choice([1e-3, 3e-4])), "n_max": 200, "h": fp(1e-3), "budget": 20000,
+                      "regular": True, "singular": False})
     return cases
 
 
